@@ -10,7 +10,7 @@
 //              | A<key>.<id> insert_at (latest plan) | F<key> find(+get) | G<key> find_record
 //              | R<key> remove | E<key> find+erase | Z size | T iterate
 // output line: <observable tokens> roles=<ok|BAD> || <structural tokens>
-// Each case runs in a forked child; every API call is bracketed by alarm(WD): if it fires the child
+// Each case runs in a forked child; every API call is bracketed by a 2 s CPU-time watchdog: if it fires the child
 // reports HANG for that call and the case ends there.
 #include "vcommon.h"
 
@@ -20,13 +20,13 @@
 
 #include <signal.h>
 #include <stdbool.h>
+#include <sys/time.h>
 #include <sys/wait.h>
 #include <unistd.h>
 
 _Static_assert(sizeof(size_t) == 8, "64-bit size_t assumed (ZixHashCode)");
 
 #define MAX_REC 4096
-#define OUT_CAP (1u << 20)
 
 typedef struct {
   unsigned char* mem; // record storage, keyoff + 8 bytes
@@ -43,18 +43,39 @@ static int      cur_rec = -1;  // id of the record passed to the current call, i
 static bool     cur_has_key;   // the current call received &callkey
 static bool     roles_bad;
 
-static char   obs[OUT_CAP];
-static char   str[OUT_CAP];
-static size_t obs_n, str_n;
-static char   lg[OUT_CAP]; // callback log of the current call
-static size_t lg_n;
+// growable output buffers (a constant hash function makes the callback logs quadratic)
+static char*  obs;
+static char*  str;
+static char*  lg; // callback log of the current call
+static size_t obs_n, str_n, lg_n;
+static size_t obs_cap, str_cap, lg_cap;
 static int    out_fd = 1;
 
-#define APPEND(buf, n, ...)                                                  \
-  do {                                                                       \
-    if ((n) < OUT_CAP - 256) {                                               \
-      (n) += (size_t)snprintf((buf) + (n), OUT_CAP - (n), __VA_ARGS__);      \
-    }                                                                        \
+static void reserve(char** buf, size_t* cap, size_t need)
+{
+  if (need + 1U > *cap) {
+    size_t c = *cap ? *cap : 4096U;
+    while (c < need + 1U) {
+      c *= 2U;
+    }
+    char* nb = (char*)realloc(*buf, c);
+    if (!nb) {
+      fputs("drv_c03: out of memory\n", stderr);
+      _exit(3);
+    }
+    if (!*cap) {
+      nb[0] = 0;
+    }
+    *buf = nb;
+    *cap = c;
+  }
+}
+
+#define APPEND(buf, n, ...)                                                   \
+  do {                                                                        \
+    const int need_ = snprintf(NULL, 0, __VA_ARGS__);                         \
+    reserve(&(buf), &buf##_cap, (n) + (size_t)need_ + 1U);                    \
+    (n) += (size_t)snprintf((buf) + (n), buf##_cap - (n), __VA_ARGS__);       \
   } while (0)
 
 // ---------------------------------------------------------------- pointer provenance
@@ -261,9 +282,11 @@ static char     cur_op;
 
 static void emit_line(const char* tail_obs)
 {
-  // single write so the parent sees whole lines
-  static char line[2 * OUT_CAP + 64];
-  size_t      n = 0;
+  char*  line = (char*)malloc(obs_n + str_n + strlen(tail_obs) + 16U);
+  size_t n    = 0;
+  if (!line) {
+    _exit(3);
+  }
   memcpy(line + n, obs, obs_n);
   n += obs_n;
   n += (size_t)sprintf(line + n, "%s || ", tail_obs);
@@ -292,11 +315,27 @@ static void on_alarm(int sig)
   _exit(0);
 }
 
-#define CALL(stmt)       \
-  do {                   \
-    alarm(wd_seconds);   \
-    stmt;                \
-    alarm(0);            \
+// The watchdog counts the CPU time of the call (a probe loop that never ends burns CPU; a loaded
+// machine that deschedules the driver does not trip it); a generous wall-clock alarm backs it up.
+static void wd_arm(void)
+{
+  struct itimerval it = {{0, 0}, {(time_t)wd_seconds, 0}};
+  setitimer(ITIMER_VIRTUAL, &it, NULL);
+  alarm(30U * wd_seconds);
+}
+
+static void wd_disarm(void)
+{
+  struct itimerval it = {{0, 0}, {0, 0}};
+  setitimer(ITIMER_VIRTUAL, &it, NULL);
+  alarm(0);
+}
+
+#define CALL(stmt) \
+  do {             \
+    wd_arm();      \
+    stmt;          \
+    wd_disarm();   \
   } while (0)
 
 // ---------------------------------------------------------------- helpers
@@ -324,16 +363,20 @@ static int id_of_record(const void* p)
   return -2;
 }
 
-static void put_id(char* buf, size_t* n, int id, const char* nullname)
+static const char* id_text(int id, const char* nullname)
 {
+  static char tmp[32];
   if (id == -1) {
-    APPEND(buf, *n, "%s", nullname);
-  } else if (id == -2) {
-    APPEND(buf, *n, "?");
-  } else {
-    APPEND(buf, *n, "%d", id);
+    return nullname;
   }
+  if (id == -2) {
+    return "?";
+  }
+  snprintf(tmp, sizeof(tmp), "%d", id);
+  return tmp;
 }
+
+#define put_id(buf, nptr, id, nullname) APPEND(buf, *(nptr), "%s", id_text((id), (nullname)))
 
 static Rec* get_rec(int id, uint64_t key)
 {
@@ -365,8 +408,9 @@ static void begin_call(char op, int rec_id, bool has_key)
   cur_op      = op;
   cur_rec     = rec_id;
   cur_has_key = has_key;
-  lg_n        = 0;
-  lg[0]       = 0;
+  reserve(&lg, &lg_cap, 16U);
+  lg_n  = 0;
+  lg[0] = 0;
 }
 
 // ---------------------------------------------------------------- one case (in the child)
@@ -380,6 +424,9 @@ static void run_case(char** tok, int n)
     }
   }
   keyoff = (size_t)strtoul(tok[1], NULL, 10);
+  reserve(&obs, &obs_cap, 16U);
+  reserve(&str, &str_cap, 16U);
+  reserve(&lg, &lg_cap, 16U);
   if (hf_kind < 0 || n < 3 || keyoff > 64U) {
     emit_line("bad-case");
     return;
@@ -391,6 +438,7 @@ static void run_case(char** tok, int n)
   memset(&act, 0, sizeof(act));
   act.sa_handler = on_alarm;
   sigaction(SIGALRM, &act, NULL);
+  sigaction(SIGVTALRM, &act, NULL);
 
   ZixHash* hash = zix_hash_new(&sa.base, key_func, hash_func, equal_func);
   if (!hash) {
@@ -563,7 +611,7 @@ static void run_case(char** tok, int n)
       static int ids[MAX_REC + 8];
       int        cnt   = 0;
       bool       first = true;
-      alarm(wd_seconds);
+      wd_arm();
       for (ZixHashIter i = zix_hash_begin(hash); i != zix_hash_end(hash); i = zix_hash_next(hash, i)) {
         const int rid = id_of_record(zix_hash_get(hash, i));
         if (cnt < MAX_REC) {
@@ -573,7 +621,7 @@ static void run_case(char** tok, int n)
         put_id(str, &str_n, rid, "null");
         first = false;
       }
-      alarm(0);
+      wd_disarm();
       if (first) {
         APPEND(str, str_n, "-");
       }
@@ -640,10 +688,12 @@ int main(void)
       _exit(0); // leak checking is done by the allocator's own counter (reported as LEAK)
     }
     close(fds[1]);
-    static char buf[2 * OUT_CAP + 128];
-    size_t      got = 0;
+    static char*  buf;
+    static size_t buf_cap;
+    size_t        got = 0;
     for (;;) {
-      ssize_t r = read(fds[0], buf + got, sizeof(buf) - 1 - got);
+      reserve(&buf, &buf_cap, got + 65536U);
+      ssize_t r = read(fds[0], buf + got, buf_cap - 1U - got);
       if (r <= 0) {
         break;
       }
